@@ -173,7 +173,7 @@ impl SubCheck for Notifications {
 					let at = steps.len() * 2 / 3;
 					steps.insert(at, H::Stop);
 				}
-				SubCase { conns, cap: 16, buf, string_ids, steps, sweep_drop: false, lowlevel: false, per_conn_middleware: 0 }
+				SubCase { conns, cap: 16, buf, string_ids, steps, sweep_drop: false, lowlevel: false, per_conn_middleware: 0, id_escapes: buf % 2 == 0 }
 			})
 			.boxed()
 	}
